@@ -91,6 +91,14 @@ func verifC10Router(globals int) (*Router, *[]string) {
 	r.GET("/s", tag("s"), pass)
 	r.GET("/d/{id}", tag("d"), pass, pass)
 	r.POST("/p", tag("p"))
+	// a streamed answer: written and flushed, twice
+	r.GET("/f", func(c *Context) {
+		c.WriteString("f1")
+		c.Resp.(http.Flusher).Flush()
+		c.WriteString("f2")
+		c.Resp.(http.Flusher).Flush()
+		log = append(log, "f")
+	})
 	// template rendering: a page that renders, and one whose template fails half way through
 	r.Renderer = verifC10Renderer{}
 	r.GET("/t", func(c *Context) {
@@ -161,7 +169,7 @@ func verifBoolStr(b bool) string {
 
 func verifHarness_C10_history() {
 	globals := verifChoice("globals", 2)
-	reqs := []verifC03Req{{"GET", "/s"}, {"GET", "/d/7"}, {"GET", "/nowhere"}, {"POST", "/s"}, {"POST", "/p"}, {"GET", "/q"}, {"GET", "/c"}, {"GET", "/t"}, {"GET", "/tbad"}}
+	reqs := []verifC03Req{{"GET", "/s"}, {"GET", "/d/7"}, {"GET", "/nowhere"}, {"POST", "/s"}, {"POST", "/p"}, {"GET", "/q"}, {"GET", "/c"}, {"GET", "/t"}, {"GET", "/tbad"}, {"GET", "/f"}}
 	r, log := verifC10Router(globals)
 	verifC10Kept, verifC10KeptData = nil, nil
 	K := verifParam("K")
@@ -185,7 +193,7 @@ func verifHarness_C10_history() {
 		frec := verifNewWriter()
 		fresh.ServeHTTP(frec, verifRequestQ(q.method, q.path, "page=1&size=10"))
 		verifC10Kept, verifC10KeptData = verifC10Kept[:keptN], verifC10KeptData[:keptN]
-		same := len(got) == len(*flog) && rec.whStatus == frec.whStatus && string(rec.body) == string(frec.body)
+		same := len(got) == len(*flog) && rec.whStatus == frec.whStatus && string(rec.body) == string(frec.body) && rec.flushes == frec.flushes
 		if same {
 			for i := range got {
 				if got[i] != (*flog)[i] {
